@@ -9,7 +9,7 @@ out=root+'/seeded/_regress'
 shutil.rmtree(out,ignore_errors=True)
 n=0
 for f in d['findings']:
-    if f['status']!='fixed' or not f.get('commit'): continue
+    if f['status']!='fixed' or not f.get('commit') or f.get('no_regress'): continue
     c=f['commit']
     r=subprocess.run(['git','-C','/repo','show','--format=',c,'--','*.go',':!*_test.go'],capture_output=True,text=True)
     if r.returncode!=0 or not r.stdout.strip():
